@@ -114,6 +114,151 @@ pub fn reference(s: &Scene) -> (Vec<u8>, Vec<u8>) {
   (out, layer)
 }
 
+fn one_frame(v: &mut VideoState, vram: &Box<[u8]>, oam: &Box<[u8]>) -> Result<(), String> {
+  let mut clocks = 0u64;
+  loop {
+    let f = v.run_clock_cycles(ClockCycles(4), vram, oam).as_u8();
+    clocks += 4;
+    if f & 1 != 0 {
+      return Ok(());
+    }
+    if clocks > 3 * 70224 {
+      return Err("no VBlank request within three frame periods".to_string());
+    }
+  }
+}
+
+/// Frame 1 shows `a`; during the vertical blank that follows, the scene is
+/// changed into `b` - only the registers whose value differs are rewritten,
+/// as a guest would - and frame 2 is returned. Whatever the renderer carries
+/// from one frame (or line) into the next must not show.
+pub fn render_then(a: &Scene, b: &Scene) -> Result<Vec<u8>, String> {
+  let mut v = VideoState::new();
+  v.set_lcd_control(a.lcdc);
+  v.set_scroll_x(a.scx);
+  v.set_scroll_y(a.scy);
+  v.set_window_x(a.wx);
+  v.set_window_y(a.wy);
+  v.set_bgp(a.bgp);
+  v.set_obj_palette(0, a.obp0);
+  v.set_obj_palette(1, a.obp1);
+  let vram = a.vram.clone().into_boxed_slice();
+  let oam = a.oam.clone().into_boxed_slice();
+  one_frame(&mut v, &vram, &oam)?;
+  if b.lcdc != a.lcdc {
+    v.set_lcd_control(b.lcdc);
+  }
+  if b.scx != a.scx {
+    v.set_scroll_x(b.scx);
+  }
+  if b.scy != a.scy {
+    v.set_scroll_y(b.scy);
+  }
+  if b.wx != a.wx {
+    v.set_window_x(b.wx);
+  }
+  if b.wy != a.wy {
+    v.set_window_y(b.wy);
+  }
+  if b.bgp != a.bgp {
+    v.set_bgp(b.bgp);
+  }
+  if b.obp0 != a.obp0 {
+    v.set_obj_palette(0, b.obp0);
+  }
+  if b.obp1 != a.obp1 {
+    v.set_obj_palette(1, b.obp1);
+  }
+  let vram = b.vram.clone().into_boxed_slice();
+  let oam = b.oam.clone().into_boxed_slice();
+  one_frame(&mut v, &vram, &oam)?;
+  Ok(v.get_visible_buffer().to_vec())
+}
+
+/// a scene that differs from `a` in one respect, the way consecutive frames of a game do
+pub fn followup_scene(rng: &mut Rng, a: &Scene, idx: u64) -> (Scene, &'static str) {
+  let mut b = Scene { vram: a.vram.clone(), oam: a.oam.clone(), lcdc: a.lcdc, scx: a.scx, scy: a.scy, wx: a.wx, wy: a.wy, bgp: a.bgp, obp0: a.obp0, obp1: a.obp1 };
+  let kind = match idx % 9 {
+    7 | 8 => {
+      // every tile redrawn in place and the picture moved by less than a tile: the first
+      // fetches of the new frame ask for tile rows the previous frame ended on
+      for t in 0..384usize {
+        if rng.chance(3, 4) {
+          for r in 0..16 {
+            b.vram[t * 16 + r] = rng.u8();
+          }
+        }
+      }
+      if idx % 9 == 7 {
+        b.scy = a.scy.wrapping_add(7);
+      } else {
+        b.wy = a.wy.wrapping_add(7);
+        b.scy = a.scy.wrapping_add(rng.below(8) as u8);
+      }
+      "tiles-redrawn-and-moved"
+    }
+    0 => {
+      // tile data redrawn in place: same tile numbers, new pixels
+      for _ in 0..(1 + rng.below(40)) {
+        let t = rng.below(384) as usize;
+        for r in 0..16 {
+          b.vram[t * 16 + r] = rng.u8();
+        }
+      }
+      "tile-data-rewritten"
+    }
+    1 => {
+      // vertical scroll or window position moved by less than a tile
+      if rng.chance(1, 2) {
+        b.scy = a.scy.wrapping_add(1 + rng.below(7) as u8);
+      } else {
+        b.wy = a.wy.wrapping_add(1 + rng.below(7) as u8);
+      }
+      "scy-or-wy-moved"
+    }
+    2 => {
+      b.scx = a.scx.wrapping_add(1 + rng.below(15) as u8);
+      b.wx = a.wx.wrapping_add(rng.below(9) as u8);
+      "scx-wx-moved"
+    }
+    3 => {
+      // tile maps rewritten
+      for _ in 0..(1 + rng.below(200)) {
+        let i = 0x1800 + rng.below(0x800) as usize;
+        b.vram[i] = rng.u8();
+      }
+      "tile-map-rewritten"
+    }
+    4 => {
+      // objects move, change tile or attributes
+      for _ in 0..(1 + rng.below(20)) {
+        let k = rng.below(40) as usize;
+        match rng.below(4) {
+          0 => b.oam[k * 4] = b.oam[k * 4].wrapping_add(rng.below(5) as u8).wrapping_sub(2),
+          1 => b.oam[k * 4 + 1] = b.oam[k * 4 + 1].wrapping_add(rng.below(5) as u8).wrapping_sub(2),
+          2 => b.oam[k * 4 + 2] = rng.u8(),
+          _ => b.oam[k * 4 + 3] = rng.u8() & 0xf0,
+        }
+      }
+      "objects-changed"
+    }
+    5 => {
+      b.bgp = rng.u8();
+      b.obp0 = rng.u8();
+      b.obp1 = rng.u8();
+      // one LCDC bit toggled (not the LCD or BG enable)
+      b.lcdc = a.lcdc ^ (1 << (1 + rng.below(6)));
+      "palettes-and-one-lcdc-bit"
+    }
+    _ => {
+      // a different scene altogether on the same controller
+      let s = random_scene(rng, idx ^ 0x5555);
+      return (s, "new-scene");
+    }
+  };
+  (b, kind)
+}
+
 pub fn render(s: &Scene) -> Result<Vec<u8>, String> {
   let mut v = VideoState::new();
   v.set_lcd_control(s.lcdc);
@@ -157,8 +302,28 @@ pub fn random_scene(rng: &mut Rng, idx: u64) -> Scene {
       vram[t * 16 + r * 2 + 1] = hi;
     }
   }
-  for i in 0x1800..0x2000 {
-    vram[i] = rng.u8();
+  // tile maps: random, or - as on real screens - large areas showing the same few tiles
+  // (consecutive fetches then ask for the same tile row again and again)
+  match rng.below(4) {
+    0 => {
+      let few: Vec<u8> = (0..(1 + rng.below(4))).map(|_| rng.u8()).collect();
+      for i in 0x1800..0x2000 {
+        vram[i] = *rng.pick(&few);
+      }
+    }
+    1 => {
+      for row in 0..64usize {
+        let t = rng.u8();
+        for c in 0..32usize {
+          vram[0x1800 + row * 32 + c] = if rng.chance(1, 16) { rng.u8() } else { t };
+        }
+      }
+    }
+    _ => {
+      for i in 0x1800..0x2000 {
+        vram[i] = rng.u8();
+      }
+    }
   }
   let mut oam = vec![0u8; 0xa0];
   let cluster_y = 16 + rng.below(144) as i32;
@@ -207,6 +372,7 @@ pub fn run(ctx: &mut Ctx) {
   let mut over10 = 0u64;
   let mut obj_pixels = 0u64;
   let mut win_pixels = 0u64;
+  let mut second_frames = 0u64;
   for i in 0..n {
     if !ctx.mine(i) {
       continue;
@@ -282,6 +448,33 @@ pub fn run(ctx: &mut Ctx) {
         ),
       );
     }
+    // ---- a second frame on the same controller, after the scene was changed during vertical blank
+    if thorough || i % 2 == 0 {
+      let (s2, kind) = followup_scene(&mut rng, &s, i / 2);
+      let (want2, layer2) = reference(&s2);
+      match render_then(&s, &s2) {
+        Ok(got2) => {
+          second_frames += 1;
+          pixels += 160 * 144;
+          if got2.len() != want2.len() {
+            ctx.violation("C15:frame-size", &format!("second frame has {} pixels", got2.len()));
+          } else if let Some(p) = (0..want2.len()).find(|&p| got2[p] != want2[p]) {
+            let (x, y) = (p % 160, p / 160);
+            let nbad = (0..want2.len()).filter(|&p| got2[p] != want2[p]).count();
+            ctx.violation(
+              &format!("C15:second-frame:{}:layer={}", kind, ["background", "window", "object"][layer2[p] as usize]),
+              &format!(
+                "scene #{} (seed {}) shown for one frame, then changed during vertical blank ({}): LCDC={:02X}->{:02X} SCX={}->{} SCY={}->{} WX={}->{} WY={}->{}: first differing pixel of the second frame ({}, {}): presented {} reference {}; {} pixels differ",
+                i, seed, kind, s.lcdc, s2.lcdc, s.scx, s2.scx, s.scy, s2.scy, s.wx, s2.wx, s.wy, s2.wy, x, y, got2[p], want2[p], nbad
+              ),
+            );
+          }
+        }
+        Err(e) => {
+          ctx.violation("C15:no-frame", &e);
+        }
+      }
+    }
     ctx.distinct_key(hash_words(&[i, seed]));
     if ctx.want_sample() && i % 211 == 3 {
       ctx.sample(&format!("scene #{}: LCDC={:02X} SCX={} SCY={} WX={} WY={} palettes {:02X}/{:02X}/{:02X}, random tile data and maps, 40 clustered objects; whole 160x144 frame vs reference ({} window pixels, {} object pixels)", i, s.lcdc, s.scx, s.scy, s.wx, s.wy, s.bgp, s.obp0, s.obp1, wn, on));
@@ -293,6 +486,7 @@ pub fn run(ctx: &mut Ctx) {
   ctx.count("scenes-with-object-pixels", with_objects);
   ctx.count("scenes-with-8x16-object-pixels", tall_objects);
   ctx.count("scenes-with-more-than-10-objects-on-a-line", over10);
+  ctx.count("second-frames-after-a-change-in-vblank", second_frames);
   ctx.count("reference-window-pixels", win_pixels);
   ctx.count("reference-object-pixels", obj_pixels);
 }
